@@ -1638,14 +1638,27 @@ pub fn run(a: &Args, prop: &str, check_mod: &str, modes: &[&str]) {
     // the cases are independent (each has its own probe): a few at a time, emitted in order
     let todo: Vec<(String, u64)> = (0..a.n).map(|i| (modes[(i % modes.len() as u64) as usize].to_string(), rng.next())).collect();
     for chunk in todo.chunks(8) {
-        let hs: Vec<_> = chunk
+        if crate::l2::timeouts() >= crate::l2::ENOUGH_TIMEOUTS {
+            sink.count("stopped-early-after-timeouts");
+            break;
+        }
+        // each case under a watchdog: an event handler that never returns is a hang, reported with
+        // the case's replay line (the thread is abandoned, the driver goes on)
+        let rxs: Vec<_> = chunk
             .iter()
             .cloned()
-            .map(|(m, sd)| std::thread::Builder::new().stack_size(64 << 20).spawn(move || { let d = case_data(&m, sd); (m, sd, d) }).unwrap())
+            .map(|(m, sd)| {
+                let (tx, rx) = std::sync::mpsc::channel();
+                let (m2, sd2) = (m.clone(), sd);
+                std::thread::Builder::new().stack_size(64 << 20).spawn(move || { let d = case_data(&m2, sd2); let _ = tx.send(d); }).unwrap();
+                (m, sd, rx)
+            })
             .collect();
-        for h in hs {
-            if let Ok((m, sd, d)) = h.join() {
-                emit_data(&mut sink, &m, sd, &d);
+        for (m, sd, rx) in rxs {
+            let line = format!("{} {}", m, sd);
+            match crate::l2::watchdog(line, 120, move || rx.recv().ok()) {
+                Some(d) => emit_data(&mut sink, &m, sd, &d),
+                None => sink.count("case-did-not-finish"),
             }
         }
     }
